@@ -1302,7 +1302,20 @@ def exhaustive_loop(P, fn_qual, allow_exits=0):
     r = Res()
     heads = [bi for bi, t in body.calls_named(r'Iterator::next$')]
     if not heads:
-        raise AnchorMissing('`%s` has no iterator loop' % fn_qual)
+        # the loop may be written as a consuming adaptor (`iter.for_each(..)`, `try_for_each`, `fold`): it visits every element unless
+        # an adaptor in the chain ends the iteration early (`try_*` stops at the first error only, which is an error exit)
+        cons = body.calls_named(r'Iterator::(for_each|try_for_each|fold|try_fold)$')
+        if not cons:
+            raise AnchorMissing('`%s` has no iterator loop' % fn_qual)
+        o = Origins(body)
+        for bi, t in cons:
+            it = o.arg_str(t, 0)
+            r.site('%s consuming adaptor @%s over %s' % (fn['qual'], body.ln(bi), it[:80]))
+            m = re.search(r'Iterator::(take_while|map_while|take|scan|step_by)\(', it)
+            if m:
+                r.bad('truncating-adaptor', 'in `%s` the iteration at %s runs over `%s(..)`: it ends at the first element the adaptor stops at, the '
+                      'remaining elements are not processed' % (fn['qual'], body.ln(bi), m.group(1)), where=[body.ln(bi)])
+        return r
     early = 0
     for h in heads:
         fwd = body.reach([h])
